@@ -48,9 +48,26 @@ def mkref(kind, j):
     raise ValueError(kind)
 
 
+def mksum(rng, earlier, first=None):
+    """an expression over two producers (string concatenation); its value is not predicted, its dependencies are.
+    (Integer arithmetic on plugin outputs is avoided here: positive integers arrive from the plugin as uint64, which the
+    expression library cannot add - exercised separately by C07.)"""
+    a = first or rng.choice(earlier)
+    others = [x for x in earlier if x != a]
+    b = rng.choice(others) if others else a
+    return fexpr('$.steps.%s.outputs.success.tok + $.steps.%s.outputs.success.tok' % (a, b),
+                 ['steps.%s.outputs.success.tok' % a, 'steps.%s.outputs.success.tok' % b])
+
+
 def mktag(rng, j, profile):
     k = rng.choice(profile.get('tags', ['wait', 'soft', 'oneof', 'ordisabled']))
     if k == 'wait':
+        others = profile.get('_ids') or [j]
+        if rng.random() < profile.get('p_wait2', 0.3) and others:
+            # two sources: present only if both were produced
+            j2 = rng.choice(others)
+            return {'t': 'opt', 'wait': True, 'e': fexpr('$.steps.%s.outputs.success.tok + $.steps.%s.outputs.success.tok' % (j, j2),
+                                                        ['steps.%s.outputs.success.tok' % j, 'steps.%s.outputs.success.tok' % j2])}
         return opt('steps.%s.outputs.%s' % (j, rng.choice(['success', 'success', 'alt', 'error'])), True)
     if k == 'soft':
         return opt('steps.%s.outputs.%s' % (j, rng.choice(['success', 'success', 'alt'])), False)
@@ -72,7 +89,9 @@ def gen_workflow(rng, profile):
     inp = {'x': 'xv%d' % rng.randint(0, 9), 'n': rng.randint(0, 99), 'flag': rng.random() < 0.7}
     p_tag = profile.get('p_tag', 0.0)
     kinds = REFKINDS_BASIC + (REFKINDS_ENGINE if profile.get('engine_outputs') else [])
+    profile = dict(profile, _ids=None)
     for i, s in enumerate(ids):
+        profile['_ids'] = ids[:i]
         o = oc_plugin(rng, profile)
         fields = {}
         deps = {}
@@ -88,6 +107,13 @@ def gen_workflow(rng, profile):
             deps['lit'] = lit(rng.choice([7, 'str', True, [1, 2], {'k': 'v'}]))
         if rng.random() < 0.2 and earlier:
             deps['lst'] = tlist([mkref('succ_tok', rng.choice(earlier)), lit('z')])
+        if earlier and rng.random() < profile.get('p_sum', 0.3):
+            # a second reference to a producer followed by another producer inside ONE expression, after an expression
+            # that already referenced the first (list order makes the processing order deterministic)
+            a = rng.choice(earlier)
+            deps['sums'] = tlist([mkref('succ_tok', a), mksum(rng, earlier, first=a)])
+        if earlier and rng.random() < profile.get('p_sum', 0.3) * 0.5:
+            deps['sum'] = mksum(rng, earlier)
         inm = {'id': lit(s)}
         if deps:
             inm['deps'] = tmap(deps)
@@ -113,9 +139,19 @@ def gen_workflow(rng, profile):
                 j = rng.choice(earlier)
                 fields['enabled'] = ref('steps.%s.enabling.resolved.enabled' % j)
                 o['enabled'] = oc[j]['enabled']   # only evaluated if j reaches that point
+        pstep = rng.choice(['work', 'work', 'nowork'])
+        o['stop'] = False
+        if pstep == 'work' and rng.random() < profile.get('p_stop', 0.0):
+            k = rng.choice(['flag', 'dep', 'dep'] if earlier else ['flag'])
+            if k == 'flag':
+                fields['stop_if'] = ref('input.flag')
+                o['stop'] = inp['flag']
+            else:
+                j = rng.choice(earlier)
+                fields['stop_if'] = mkref(rng.choice(['succ_tok', 'started']), j)
+                o['stop'] = True     # any produced (non-false) value stops the step
         if rng.random() < profile.get('p_deployexpr', 0.1):
             fields['deploy'] = tmap({'deployer_name': lit('scripted'), 'tag': (mkref('succ_tok', rng.choice(earlier)) if earlier and rng.random() < 0.6 else ref('input.x'))})
-        pstep = rng.choice(['work', 'work', 'nowork'])
         wf['steps'][s] = {'kind': 'plugin', 'pstep': pstep, 'fields': fields}
         oc[s] = o
         ex = {'out': {'crash': 'success'}.get(o['beh'], o['beh']), 'crash': o['beh'] == 'crash', 'delay_ms': rng.choice([0, 0, 1, 3, 8]), 'n': rng.randint(0, 50)}
@@ -123,6 +159,10 @@ def gen_workflow(rng, profile):
     # outputs
     def out_tree(kind_pool, must=None):
         kids = {}
+        profile['_ids'] = ids
+        if len(ids) >= 2 and rng.random() < profile.get('p_sum', 0.3):
+            a = rng.choice(ids)
+            kids['sums'] = tlist([mkref('succ_tok', a), mksum(rng, ids, first=a)])
         for d in range(rng.randint(1, 3)):
             j = rng.choice(ids)
             if rng.random() < p_tag:
